@@ -35,6 +35,20 @@ impl AsyncConnection {
         }
     }
 
+    /// Verification hook: build the async connection from an injected inbox instead of a
+    /// `spawn_blocking` receiver pump (which lives outside any simulated scheduler and clock).
+    #[cfg(feature = "verif-hooks")]
+    pub fn verif_from_parts(
+        connection: Connection,
+        receiver: mpsc::UnboundedReceiver<Message>,
+    ) -> Self {
+        Self {
+            connection: Arc::new(connection),
+            receiver,
+            _receiver_task: tokio::spawn(async {}),
+        }
+    }
+
     /// Receive message asynchronously
     pub async fn recv(&mut self) -> Option<Message> {
         self.receiver.recv().await
